@@ -207,6 +207,8 @@ class Unit:
         self.vacuity = False
         self.twins = []
         self.lemmas = {}
+        self.stub_out = set()   # selectors whose bodies are replaced by `unimplemented!()` (contract kept): per-function isolation
+        self.stubbed = []       # (selector, reason)
 
     # -------- source access ----------
     def source(self, file):
@@ -334,6 +336,12 @@ class Unit:
                     if d2 == 'FIELDS':
                         fields = text
                 self.do_struct(file, name, opts, fields)
+            elif d.startswith('BITFLAGS'):
+                # //@BITFLAGS <Name> <int type> [all=<const expr>] : complete the hand-written model of a bitflags! type
+                # with the remaining methods of the bitflags 2.x API (those not already defined above this line)
+                parts = d.split()
+                opts = dict(q.split('=', 1) for q in parts[3:] if '=' in q)
+                self.do_bitflags(parts[1], parts[2], opts.get('all'))
             elif d.startswith('CENSUS'):
                 mm = re.match(r'CENSUS\s+(\S+)\s+(\S+)\s+`(.*)`\s*==\s*(\d+)', d)
                 if not mm:
@@ -401,6 +409,51 @@ class Unit:
         text = re.sub(r'@SITEK:(\w+)@', number_k, text)
         return text
 
+    def do_bitflags(self, name, ty, allmask):
+        if not hasattr(self, 'assumptions'):
+            self.assumptions = []
+        sofar = ''.join(self.out)
+        have = set()
+        for m in re.finditer(r'\bimpl\s+%s\s*\{' % re.escape(name), sofar):
+            depth, k = 1, m.end()
+            while k < len(sofar) and depth:
+                depth += {'{': 1, '}': -1}.get(sofar[k], 0)
+                k += 1
+            have |= set(re.findall(r'\bfn\s+(\w+)', sofar[m.end():k]))
+        N, T = name, ty
+        ms = {
+            'empty': 'pub fn empty() -> (r: %s) ensures r.0 == 0 { %s(0) }' % (N, N),
+            'bits': 'pub fn bits(&self) -> (r: %s) ensures r == self.0 { self.0 }' % T,
+            'from_bits_retain': 'pub fn from_bits_retain(bits: %s) -> (r: %s) ensures r.0 == bits { %s(bits) }' % (T, N, N),
+            'is_empty': 'pub fn is_empty(&self) -> (r: bool) ensures r == (self.0 == 0) { self.0 == 0 }',
+            'contains': 'pub fn contains(&self, o: %s) -> (r: bool) ensures r == (self.0 & o.0 == o.0) { self.0 & o.0 == o.0 }' % N,
+            'intersects': 'pub fn intersects(&self, o: %s) -> (r: bool) ensures r == (self.0 & o.0 != 0) { self.0 & o.0 != 0 }' % N,
+            'union': 'pub fn union(self, o: %s) -> (r: %s) ensures r.0 == self.0 | o.0 { %s(self.0 | o.0) }' % (N, N, N),
+            'intersection': 'pub fn intersection(self, o: %s) -> (r: %s) ensures r.0 == self.0 & o.0 { %s(self.0 & o.0) }' % (N, N, N),
+            'difference': 'pub fn difference(self, o: %s) -> (r: %s) ensures r.0 == self.0 & !o.0 { %s(self.0 & !o.0) }' % (N, N, N),
+            'symmetric_difference': 'pub fn symmetric_difference(self, o: %s) -> (r: %s) ensures r.0 == self.0 ^ o.0 { %s(self.0 ^ o.0) }' % (N, N, N),
+            'insert': 'pub fn insert(&mut self, o: %s) ensures final(self).0 == old(self).0 | o.0 { self.0 = self.0 | o.0; }' % N,
+            'remove': 'pub fn remove(&mut self, o: %s) ensures final(self).0 == old(self).0 & !o.0 { self.0 = self.0 & !o.0; }' % N,
+            'toggle': 'pub fn toggle(&mut self, o: %s) ensures final(self).0 == old(self).0 ^ o.0 { self.0 = self.0 ^ o.0; }' % N,
+            'set': 'pub fn set(&mut self, o: %s, v: bool) ensures final(self).0 == (if v { old(self).0 | o.0 } else { old(self).0 & !o.0 }) '
+                   '{ if v { self.0 = self.0 | o.0; } else { self.0 = self.0 & !o.0; } }' % N,
+        }
+        if allmask:
+            A = '(%s)' % allmask
+            ms.update({
+                'all': 'pub fn all() -> (r: %s) ensures r.0 == %s { %s(%s) }' % (N, A, N, A),
+                'is_all': 'pub fn is_all(&self) -> (r: bool) ensures r == (self.0 & %s == %s) { self.0 & %s == %s }' % (A, A, A, A),
+                'from_bits_truncate': 'pub fn from_bits_truncate(bits: %s) -> (r: %s) ensures r.0 == bits & %s { %s(bits & %s) }' % (T, N, A, N, A),
+                'from_bits': 'pub fn from_bits(bits: %s) -> (r: Option<%s>) ensures r == (if bits & !%s == 0 { Some(%s(bits)) } else { None::<%s> }) '
+                             '{ if bits & !%s == 0 { Some(%s(bits)) } else { None } }' % (T, N, A, N, N, A, N),
+                'complement': 'pub fn complement(self) -> (r: %s) ensures r.0 == !self.0 & %s { %s(!self.0 & %s) }' % (N, A, N, A),
+            })
+        body = ''.join('    %s\n' % v for k, v in ms.items() if k not in have)
+        self.emit('// bitflags 2.x API of %s not written out above (generated by //@BITFLAGS; semantics as documented by the bitflags crate,\n'
+                  '// validated on a real type by Kani harness c10_flag_models)\nimpl %s {\n%s}\n' % (N, N, body))
+        self.assumptions.append('bitflags! type %s is modelled as a newtype over %s with the documented bitflags 2.x method semantics%s'
+                                % (N, T, (' (all known bits = %s)' % allmask) if allmask else ''))
+
     # -------- items ----------
     def do_fn(self, fs):
         src, text, toks, items = self.source(fs.file)
@@ -432,7 +485,32 @@ class Unit:
         body = strip_macros(body)
         body = self.apply_rules(body, 'body', names, fname)
         fs.valued = ('->' in sig) and not re.search(r'->\s*\(\s*r\s*:\s*\(\s*\)\s*\)', sig)
-        body = self.splice(fs, body)
+        stub_reason = None
+        if fs.selector in self.stub_out or fname in self.stub_out:
+            stub_reason = 'construct not supported by the verifier'
+        else:
+            try:
+                body = self.splice(fs, body)
+            except ExtractError as e:
+                if 'lost anchor' not in str(e):
+                    raise
+                stub_reason = str(e)
+        if stub_reason is not None:
+            # per-function isolation: this body cannot be brought under the verifier as it stands (restructured code: a
+            # proof anchor is gone, or an unsupported construct).  Its contract is kept as a stub so that the rest of the
+            # unit still gets a verdict; the function itself is reported as NO-VERDICT, never as a violation.
+            self.stubbed.append((fs.selector, stub_reason))
+            start = self.line
+            self.emit('// ---- NOT VERIFIED (%s): %s %s (line %d): contract kept as a stub ----\n' % (stub_reason.replace('\n', ' ')[:160], fs.file, fs.selector, src_line))
+            self.emit('#[verifier::external_body]\n')
+            self.emit(sig + '\n')
+            if fs.spec.strip():
+                self.emit(fs.spec.rstrip('\n') + '\n')
+            self.emit('{ unimplemented!() }\n')
+            props = fs.opts.get('props', '').split(',') if fs.opts.get('props') else []
+            self.map.append({'gen_start': start, 'gen_end': self.line, 'selector': fs.selector,
+                             'file': fs.file, 'src_line': src_line, 'props': props, 'name': fname, 'stubbed': True})
+            return
         body = re.sub(r'\n[ \t]*(\n[ \t]*)+\n', '\n\n', body)
         start = self.line
         self.emit('// ---- extracted: %s %s (line %d) ----\n' % (fs.file, fs.selector, src_line))
@@ -686,9 +764,10 @@ def scan_assumptions(text):
     return sorted(set(found))
 
 
-def build(unit_name, repo, units_dir, out_dir, vacuity=False):
+def build(unit_name, repo, units_dir, out_dir, vacuity=False, stub_out=None):
     u = Unit(unit_name, repo, units_dir)
     u.vacuity = vacuity
+    u.stub_out = set(stub_out or [])
     path = os.path.join(units_dir, unit_name + '.vrs')
     if not os.path.exists(path):
         raise ExtractError('no template ' + path)
@@ -704,8 +783,9 @@ def build(unit_name, repo, units_dir, out_dir, vacuity=False):
         'map': u.map,
         'rules': {n: u.rules[n].count for n in u.rule_order},
         'census': u.census,
-        'assumptions': scan_assumptions(text),
+        'assumptions': sorted(set(scan_assumptions(text) + getattr(u, 'assumptions', []))),
         'twins': u.twins,
+        'stubbed': u.stubbed,
         'lemmas': u.lemmas,
         'sites': u.sites,
     }
